@@ -715,15 +715,20 @@ Proof.
 Qed.
 
 Lemma gc_at_LI : forall s k now, LI s -> h_err (H s) = 0 ->
-  LX s (gc_at s k now) /\ frame (H s) (H (gc_at s k now)).
+  LX s (gc_at s k now) /\ frame (H s) (H (gc_at s k now)) /\
+  (p_stop (P s) k = false -> (sub64 now (p_lastgc (P s) k) <? gc_tick) = false ->
+   forall kv, In kv (pend (P s)) -> fst kv mod cps s = k -> o_dl (h_objs (H s) (so (snd kv))) < now ->
+   nterm (hgot (H (gc_at s k now)) (sr (snd kv))) = 1%nat).
 Proof.
   intros s k now Li He. unfold gc_at.
-  destruct (p_stop (P s) k) eqn:Est; [split; [apply (LX_refl _ Li) | apply frame_refl; exact He]|].
-  destruct (sub64 now (p_lastgc (P s) k) <? gc_tick); [split; [apply (LX_refl _ Li) | apply frame_refl; exact He]|].
-  cut (forall X Y Z : Prop, X /\ Y /\ Z -> X /\ Y); [intros Hcut; eapply Hcut | tauto].
+  destruct (p_stop (P s) k) eqn:Est; [split; [apply (LX_refl _ Li) | split; [apply frame_refl; exact He | discriminate]]|].
+  destruct (sub64 now (p_lastgc (P s) k) <? gc_tick);
+    [split; [apply (LX_refl _ Li) | split; [apply frame_refl; exact He | intros _ X; discriminate X]]|].
   set (expired := fun kv : N * slot => (fst kv mod cps s =? k) && (o_dl (h_objs (H s) (so (snd kv))) <? now)).
   set (sc := fun o : obj => SGc now (o_dl o)). set (f := fun _ : obj => mkRes cTimeout 0 0).
-  apply (LX_finish s _ (map (fun x => (sc, f, x)) (map snd (filter expired (pend (P s))))) Li He).
+  destruct (LX_finish s (setHP s (notifyf_all sc f (H s) (map snd (filter expired (pend (P s)))))
+                          (p_set_gc (P s) (filter (fun kv => negb (expired kv)) (pend (P s))) (fupd (p_lastgc (P s)) k now)))
+              (map (fun x => (sc, f, x)) (map snd (filter expired (pend (P s))))) Li He) as (Lx & Fr & Hone).
   - apply Forall_triples. apply terminal_const. reflexivity.
   - rewrite map_snd_triples. cbn [app]. unfold live. apply perm_head with (d := []). cbn [app].
     apply (pend_split s expired). intros kv Hk. unfold expired in Hk. apply andb_true_iff in Hk. destruct Hk as [Hk _].
@@ -731,6 +736,8 @@ Proof.
   - cbn. apply notifyf_all_nseq.
   - cbn. apply NoDup_map_filter. apply Li.
   - cbn. apply Li.
+  - split; [exact Lx|]. split; [exact Fr|]. intros _ _ kv Hkv Hk Hd. apply Hone. rewrite map_snd_triples.
+    apply in_map. apply filter_In. split; [exact Hkv|]. unfold expired. rewrite Hk, N.eqb_refl. cbn. apply N.ltb_lt. exact Hd.
 Qed.
 
 Lemma LI_weaken : forall s s' drop, LI s -> HI (H s') ->
